@@ -510,6 +510,20 @@ fn check_huge_zst(len: usize, a: usize, b: usize) -> Result<(), String> {
         )*};
     }
     chunks!(1 2 3 7 4096);
+    // chunk sizes that only a zero-sized element type allows: [(); N] with N above isize::MAX is a valid type
+    {
+        const BIG: usize = isize::MAX as usize + 1;
+        let (kc, kr) = ks::as_chunks::<(), BIG>(s);
+        let (oc, or) = s.as_chunks::<BIG>();
+        ensure!(kc.len() == oc.len() && kr.len() == or.len(), "as_chunks::<isize::MAX+1> on {len} x (): konst ({}, {}) std ({}, {})", kc.len(), kr.len(), oc.len(), or.len());
+        let (kr, kc) = ks::as_rchunks::<(), BIG>(s);
+        let (or, oc) = s.as_rchunks::<BIG>();
+        ensure!(kc.len() == oc.len() && kr.len() == or.len(), "as_rchunks::<isize::MAX+1> on {len} x (): konst ({}, {}) std ({}, {})", kr.len(), kc.len(), or.len(), oc.len());
+        let (kc, kr) = ks::as_chunks::<(), { usize::MAX }>(s);
+        let (oc, or) = s.as_chunks::<{ usize::MAX }>();
+        ensure!(kc.len() == oc.len() && kr.len() == or.len(), "as_chunks::<usize::MAX> on {len} x (): konst ({}, {}) std ({}, {})", kc.len(), kr.len(), oc.len(), or.len());
+        ensure!(ks::try_into_array::<(), BIG>(s).is_ok() == (len == BIG), "try_into_array::<isize::MAX+1> on {len} x ()");
+    }
     ensure!(ks::try_into_array::<(), 3>(s).is_ok() == (len == 3), "try_into_array::<3> on {len} x ()");
     Ok(())
 }
